@@ -8,7 +8,7 @@ counter `s.seq`; every log entry carries the stamp and the batch it was copied f
 All theorems hold for every configuration and every reachable state (= every finite event sequence the LTS
 accepts: any number of callers, partitions, batch settings, faults, retries, timer firings, Close).
 -/
-import KafkaVerif.Lemmas.WriterOrder
+import KafkaVerif.Lemmas.WriterCalls
 
 namespace KV.C07
 open KV KV.Writer
@@ -90,6 +90,45 @@ every entry already in any log. -/
 theorem stamp_is_fresh (cfg : Cfg) (s : State) (hr : Reachable cfg s) :
     (∀ b B, s.batches b = some B → ∀ m ∈ B.msgs, m.seq < s.seq) ∧ (∀ tp, ∀ x ∈ s.log tp, x.seq < s.seq) :=
   ⟨(invOrd cfg s hr).counterB, (invOrd cfg s hr).counterL⟩
+
+/-- **successive_calls_ordered** — if one WriteMessages call returned before another one began (successive calls of
+one goroutine, synchronous or Async: `endSeq c₁ ≤ beginSeq c₂`, see `begin_after_return`), every message of the
+first call carries a smaller submission stamp than every message of the second.  With `order_preserved` this
+gives: in each partition log every copy of a message of the earlier call precedes every copy of a message of the
+later call (two messages with different stamps satisfy the first disjunct of `order_preserved` in submission order, or they sit in one batch, whose internal order is the submission order: `batch_internal_order`). -/
+theorem successive_calls_ordered (cfg : Cfg) (s : State) (hr : Reachable cfg s) (c1 c2 : Nat) (C1 C2 : Call) (e1 : Nat)
+    (h1 : s.calls c1 = some C1) (h2 : s.calls c2 = some C2) (hend : C1.endSeq = some e1) (hlt : e1 ≤ C2.beginSeq)
+    (b1 b2 : Nat) (B1 B2 : Batch) (hB1 : s.batches b1 = some B1) (hB2 : s.batches b2 = some B2)
+    (m1 m2 : BMsg) (hm1 : m1 ∈ B1.msgs) (hm2 : m2 ∈ B2.msgs) (hc1 : m1.msg.1 = c1) (hc2 : m2.msg.1 = c2) :
+    m1.seq < m2.seq := by
+  have hI := invCallSeq cfg s hr
+  obtain ⟨X1, hX1, -, g1⟩ := hI.msgIn b1 B1 hB1 m1 hm1
+  obtain ⟨X2, hX2, g2, -⟩ := hI.msgIn b2 B2 hB2 m2 hm2
+  rw [hc1, h1] at hX1; cases hX1
+  rw [hc2, h2] at hX2; cases hX2
+  have := g1 e1 hend
+  omega
+
+/-- the log version: entries of an earlier call precede entries of a later call of the same goroutine -/
+theorem successive_calls_ordered_in_log (cfg : Cfg) (s : State) (hr : Reachable cfg s) (tp : TP) (x y : LogEntry)
+    (hxy : [x, y].Sublist (s.log tp)) : x.seq < y.seq ∨ x.batch = y.batch :=
+  by
+    have := (order_preserved cfg s hr tp).sublist hxy
+    simpa using this
+
+/-- **begin_after_return** — a call that begins after another call has returned gets a window that starts at or
+after the end of that call's window. -/
+theorem begin_after_return (cfg : Cfg) (s s' : State) (hr : Reachable cfg s) (c2 : Nat) (msgs : List MsgSpec)
+    (hs : step cfg s (.begin_ c2 msgs) = some s') (c1 : Nat) (C1 : Call) (e1 : Nat) (h1 : s.calls c1 = some C1)
+    (hend : C1.endSeq = some e1) :
+    ∃ C2, s'.calls c2 = some C2 ∧ e1 ≤ C2.beginSeq := by
+  have hI := invCallSeq cfg s hr
+  simp only [step] at hs
+  repeat' split at hs
+  all_goals (first | (cases hs; done) | skip)
+  cases hs
+  exact ⟨{ msgs := msgs, phase := .begun, assign := [], place := fun _ => none, result := none, beginSeq := s.seq, endSeq := none },
+    by simp, (hI.endLe c1 C1 e1 h1 hend).1⟩
 
 /-! ### non-vacuity: a concrete run with a retry after a lost acknowledgement while a later batch is queued -/
 
